@@ -5,6 +5,11 @@ EXTENDS Sessions, Json, TLC
 RECURSIVE Shp(_)
 Shp(n) == IF n = 0 THEN {<<>>} ELSE { Append(s, z) : s \in Shp(n - 1), z \in {"S", "L"} }
 MCShapes == Shp(N)
+\* the quick universe: half of the size assignments (every pair of neighbours large-small, small-large, equal)
+MCShapesQuick == { <<"L", "S", "S">>, <<"S", "L", "S">>, <<"S", "S", "S">>, <<"L", "L", "S">> }
+
+\* model checking looks at every interleaving once, whatever the schedule that led there
+View == <<shape, cpc, inq, ppc, buf, fill, need, bufs, pool, caps, nextBuf, routed, up, fin>>
 
 GenOut == AllOver => PrintT(ToJson([shape |-> shape, sched |-> sched,
                                     up |-> [i \in C |-> up[i]], routed |-> [i \in C |-> routed[i]]]))
